@@ -677,23 +677,48 @@ def check(prop, tier, seed, replay=None):
 
 
 def setup():
+    """build everything the claimed checks need, offline, from files on disk"""
     t0 = time.time()
-    tr = run_translator([])
+    try:
+        claimed = [c["property_id"] for c in json.load(open(os.path.join(ROOT, "MANIFEST.json")))["checks"]]
+    except Exception:
+        claimed = sorted(registry.PROPS)
+    claimed = [p for p in claimed if p in registry.PROPS]
+    run_translator([])
     write_coqproject()
-    rc, out = sh("make -f Makefile.coq -j%d -k" % NPROC, cwd=COQ, timeout=7200)
+    ok = True
+    targets = []
+    fams = set()
+    for prop in claimed:
+        cfg = registry.PROPS[prop]
+        targets.append(cfg["props_file"][:-2] + ".vo")
+        targets += [f[:-2] + ".vo" for f in cfg.get("extra_props_files", [])]
+        if cfg.get("extract_target"):
+            targets.append(cfg["extract_target"]); fams.add(prop)
+        for c in cfg["components"]:
+            if c.get("ocaml"):
+                targets.append("extract/Ex_%s.vo" % c["ocaml"]); fams.add(c["ocaml"])
+    targets = sorted(set(targets))
+    rc, out = sh("make -f Makefile.coq -j%d -k %s" % (NPROC, " ".join(targets)), cwd=COQ, timeout=7200)
     print(out[-1500:])
-    ok = rc == 0
-    for prop in sorted(registry.PROPS):
-        if registry.PROPS[prop].get("extract_target"):
-            r, o = build_ocaml(prop)
-            if r != 0:
-                print("ocaml build failed for", prop, o[-500:]); ok = False
-    crates = sorted({registry.PROPS[p]["harness"] for p in registry.PROPS if registry.PROPS[p].get("harness")})
-    for c in crates:
-        r, o = build_harness(c, timeout=7200)
-        print(c, "rc", r, o[-300:])
+    ok = ok and rc == 0
+    for fam in sorted(fams):
+        r, o = build_ocaml(fam)
+        if r != 0:
+            print("ocaml build failed for", fam, o[-500:]); ok = False
+    bins = set()
+    for prop in claimed:
+        cfg = registry.PROPS[prop]
+        if cfg.get("harness"):
+            bins.add((cfg["harness"], cfg.get("harness_bin", prop)))
+        for c in cfg["components"]:
+            if c.get("harness"):
+                bins.add(tuple(c["harness"]))
+    for crate, b in sorted(bins):
+        r, o = build_harness(crate, timeout=7200, binname=b)
+        print(crate, b, "rc", r, o[-300:] if r else "")
         ok = ok and r == 0
-    print("setup %s in %.0fs" % ("ok" if ok else "FAILED", time.time() - t0))
+    print("setup %s in %.0fs (claimed: %s)" % ("ok" if ok else "FAILED", time.time() - t0, " ".join(claimed)))
     return 0 if ok else 1
 
 
